@@ -36,8 +36,9 @@ HOSTILE = ['x" * 3 + "', '" + str(1) + "', "\\\\", "'\"'", "__import__('os')", "
 
 class G:
     def __init__(self, draw, loops, lists, hostile=False, empty_string=True, callee_field_write=True, loop_overwrite=True,
-                 callee_revisit=True):
+                 callee_revisit=True, single_loop=False):
         self.draw = draw
+        self.single_loop = single_loop           # at most one loop per program
         self.loop_overwrite = loop_overwrite
         self.callee_revisit = callee_revisit     # generated callees may be called in or after a loop (the call is visited again)
         self.in_loop = 0
@@ -238,7 +239,7 @@ def gen_stmt(g, env, indent, depth):
         g.emit(indent, "%s = %s[%d]" % (v, l, g.draw(st.integers(0, g.list_len.get(l, 2) - 1))), v, multi=True)
         env[v] = "int"
         return
-    if r == 22 and g.loops and depth < 2:
+    if r == 22 and g.loops and depth < 2 and not (g.single_loop and "loop" in g.labels):
         e = g.fresh("e")
         g.labels.add("loop")
         g.emit(indent, "for %s in [%s]:" % (e, g.pick(ints)))
@@ -342,9 +343,9 @@ def gen_helper(g):
 
 @st.composite
 def programs(draw, loops=False, lists=False, max_stmts=14, empty_string=True, callee_field_write=True, loop_overwrite=True,
-             callee_revisit=True):
+             callee_revisit=True, single_loop=False):
     g = G(draw, loops, lists, empty_string=empty_string, callee_field_write=callee_field_write, loop_overwrite=loop_overwrite,
-          callee_revisit=callee_revisit)
+          callee_revisit=callee_revisit, single_loop=single_loop)
     env = {}
     n = draw(st.integers(4, max_stmts))
     for _ in range(n):
